@@ -51,6 +51,27 @@ func main() {
 
 	bin := buildChild(c)
 
+	if os.Getenv("C11_ONLY") != "" { // development aid: play the scenarios whose id contains the given text, no model checking
+		rng := rand.New(rand.NewSource(seed*7919 + 11))
+		var scs []*Scenario
+		for _, fam := range replayFamilies(thorough) {
+			scs = append(scs, exportScripts(c, fam, rng, thorough)...)
+		}
+		scs = append(scs, specialScenarios(thorough)...)
+		var sel []*Scenario
+		for _, sc := range scs {
+			if strings.Contains(sc.ID, os.Getenv("C11_ONLY")) {
+				sel = append(sel, sc)
+			}
+		}
+		results := runAll(bin, sel, 4)
+		for i, sc := range sel {
+			b, _ := json.Marshal(map[string]any{"scenario": sc, "played": results[i].res, "stderr": trunc(results[i].stderr, 3000)})
+			fmt.Println(string(b))
+		}
+		judge(c, bin, sel, results)
+		c.Finish()
+	}
 	if f := os.Getenv("VERIF_REPLAY"); f != "" {
 		replayOne(c, bin, f)
 		return
@@ -85,6 +106,13 @@ func main() {
 	fmt.Fprintf(os.Stderr, "[c11] %d scenarios (%d replay scripts incl. racy variants, %d random)\n", len(scs), nReplay, nRandom)
 	results := runAll(bin, scs, 4)
 	fmt.Fprintf(os.Stderr, "[c11] sessions played in %.0fs\n", time.Since(t0).Seconds())
+	if f, err := os.Create(vlib.Work("C11", "sessions.ndjson")); err == nil { // for diagnosis only
+		for i, sc := range scs {
+			b, _ := json.Marshal(map[string]any{"scenario": sc, "played": results[i].res, "crashed": results[i].crashed, "stderr": trunc(results[i].stderr, 2000)})
+			f.Write(append(b, '\n'))
+		}
+		f.Close()
+	}
 
 	// ---- 4. verdicts
 	judge(c, bin, scs, results)
@@ -790,11 +818,14 @@ type rejection struct {
 	line   Event
 }
 
+var reDevs = regexp.MustCompile(`^<<"DEVS", (\d+), \{(.*)\}>>`)
+
 // validate runs TLC (WsTrace) over the concatenated traces; a rejected trace is removed and the
-// rest re-validated, so every trace is examined.
-func validate(c *vlib.Check, cfgName string, edit func(string) string, ts []*tracedScenario, scratch string, count bool) ([]rejection, error) {
+// rest re-validated, so every trace is examined.  devs: named deviations a trace used (Dev config).
+func validate(c *vlib.Check, cfgName string, edit func(string) string, ts []*tracedScenario, scratch string, count bool) ([]rejection, map[*tracedScenario][]string, error) {
 	var rej []rejection
-	const chunk = 120
+	devs := map[*tracedScenario][]string{}
+	const chunk = 150
 	for lo := 0; lo < len(ts); lo += chunk {
 		hi := lo + chunk
 		if hi > len(ts) {
@@ -816,19 +847,37 @@ func validate(c *vlib.Check, cfgName string, edit func(string) string, ts []*tra
 			res, err := vlib.RunTLC(vlib.TLCOpts{Module: "WsTrace", Config: cfgName, Workers: 1, DFS: true, CfgEdit: edit,
 				Data: map[string][]byte{"trace.ndjson": buf.Bytes()}, Scratch: filepath.Join(scratch, fmt.Sprintf("c%d-r%d", lo, round)), Timeout: 20 * time.Minute})
 			if err != nil {
-				return rej, err
+				return rej, devs, err
 			}
 			if count {
 				c.AddStates(res.Distinct, res.Generated)
+			}
+			limit := len(owner)
+			if !res.OK {
+				if res.RejectedAt == 0 || res.RejectedAt > len(owner) {
+					return rej, devs, fmt.Errorf("TLC failed without a trace rejection:\n%s", tailStr(res.Output, 3000))
+				}
+				limit = res.RejectedAt - 1
+			}
+			for _, ln := range res.Printed {
+				if m := reDevs.FindStringSubmatch(ln); m != nil {
+					n, _ := strconv.Atoi(m[1])
+					if n >= 1 && n <= limit {
+						var names []string
+						for _, x := range strings.Split(m[2], ",") {
+							if x = strings.Trim(strings.TrimSpace(x), `"`); x != "" {
+								names = append(names, x)
+							}
+						}
+						devs[remaining[owner[n-1]]] = names
+					}
+				}
 			}
 			if res.OK {
 				if count {
 					c.AddTraces(int64(len(remaining)))
 				}
 				break
-			}
-			if res.RejectedAt == 0 || res.RejectedAt > len(owner) {
-				return rej, fmt.Errorf("TLC failed without a trace rejection:\n%s", tailStr(res.Output, 3000))
 			}
 			idx := owner[res.RejectedAt-1]
 			first := res.RejectedAt - 1
@@ -842,7 +891,7 @@ func validate(c *vlib.Check, cfgName string, edit func(string) string, ts []*tra
 			remaining = remaining[idx+1:]
 		}
 	}
-	return rej, nil
+	return rej, devs, nil
 }
 
 var reRaceOurs = regexp.MustCompile(`gqlgen/graphql/handler/transport|gorilla/websocket`)
@@ -987,25 +1036,77 @@ func judge(c *vlib.Check, bin string, scs []*Scenario, results []*played) {
 	if len(ts) == 0 {
 		vlib.Infra("no session was recorded")
 	}
-	rej, err := validate(c, "WsTrace.cfg", nil, ts, vlib.Work("C11", "tv"), true)
+	slow := append([]*tracedScenario{}, ts...)
+	sort.Slice(slow, func(i, j int) bool { return slow[i].res.WallMs > slow[j].res.WallMs })
+	var tot int64
+	for _, t := range ts {
+		tot += t.res.WallMs
+	}
+	fmt.Fprintf(os.Stderr, "[c11] %d sessions, %.1fs of session time; slowest:", len(ts), float64(tot)/1000)
+	for i := 0; i < 8 && i < len(slow); i++ {
+		fmt.Fprintf(os.Stderr, " %s=%dms", slow[i].sc.ID, slow[i].res.WallMs)
+	}
+	fmt.Fprintln(os.Stderr)
+	// Every trace is validated against Ws with the named deviations of the OPEN findings admitted
+	// (WsTraceDev.cfg) - a trace that used one reports which (w.devs); a trace that used none has
+	// satisfied the strict guards at every step, i.e. it is a behaviour of the property (WsTrace.cfg).
+	rej, devs, err := validate(c, "WsTraceDev.cfg", nil, ts, vlib.Work("C11", "tv"), true)
 	if err != nil {
 		vlib.Infra("trace validation: %v", err)
 	}
 	rejected := map[string]bool{}
 	devCount := map[string]int{}
-	// an absence already listed as an open finding is re-observed as such; anything else resting on an
-	// absence is confirmed by a second run of the whole scenario with longer waits
-	knownOpen := map[string]bool{}
-	for _, k := range vlib.LoadKnown("C11") {
-		if k.Status == "open" {
-			knownOpen[k.Key] = true
+	strictChecked := 0
+	for _, t := range ts {
+		names := devs[t]
+		if len(names) == 0 {
+			continue
+		}
+		rejected[t.sc.ID] = true
+		has := map[string]bool{}
+		for _, n := range names {
+			has[n] = true
+		}
+		// binding check: the strict configuration (the property) must reject such a trace
+		if strictChecked < 3 {
+			strictChecked++
+			r2, _, err := validate(c, "WsTrace.cfg", nil, []*tracedScenario{t}, vlib.Work("C11", "tv-strict", t.sc.ID), false)
+			if err != nil {
+				vlib.Infra("trace validation (strict): %v", err)
+			}
+			if len(r2) == 0 {
+				vlib.Infra("WsTrace.cfg accepts trace %s although it used the deviations %v", t.sc.ID, names)
+			}
+		}
+		for _, n := range names {
+			key, what := "", ""
+			switch n {
+			case "dup":
+				key, what = "dup-start:second-operation-of-running-id", "a start with the id of an operation that is still executing was accepted: two operations execute under one id, so the client cannot tell whose completion it receives"
+			case "dup-stop":
+				key, what = "dup-start:stop-does-not-cancel-first-operation", "stop(id) was sent while two operations of the id were executing; the first one never saw its context cancelled (first look 2 s, second look 20 s, connection open)"
+			case "outlives":
+				key, what = "dup-start:operation-outlives-connection", "after the connection ended an operation is still executing, its context never cancelled ("+finalWhy(t.res.Events)+")"
+				if has["restart"] && !has["dup"] {
+					key = "restart-race:operation-outlives-connection"
+				}
+			case "dblerr":
+				key, what = "double-error-frame:subscription-error-then-panic", "a resolver that called AddSubscriptionError and then panicked: two error frames for one operation"
+			case "restart":
+				key, what = "restart-race:stop-does-not-cancel-restarted-operation", "the id was started again right after its completion had been received; the finished operation's deferred delete(active, id) removed the NEW operation's registration, so stop(id) found nothing to cancel (first look 2 s, second look 20 s, connection open)"
+			default:
+				key, what = "deviation:"+n, "named deviation "+n
+			}
+			devCount[key]++
+			c.Violate(key, what+"\n"+describe(t, len(t.res.Events)), t.sc)
 		}
 	}
+	// an absence already listed as an open finding is re-observed as such; anything else resting on an
+	// absence is confirmed by a second run of the whole scenario with longer waits
 	for _, r := range rej {
 		rejected[r.t.sc.ID] = true
 		key, detail := classify(c, r)
-		if strings.HasPrefix(key, "absent:") && !r.t.sc.Long && !knownOpen[strings.TrimPrefix(key, "absent:")] {
-			// an absence verdict: confirm by playing the scenario again, alone, with 10x the waits
+		if strings.HasPrefix(key, "absent:") && !r.t.sc.Long {
 			again := *r.t.sc
 			again.Long = true
 			again.ID += "-confirm"
@@ -1015,7 +1116,7 @@ func judge(c *vlib.Check, bin string, scs []*Scenario, results []*played) {
 				continue
 			}
 			t2 := &tracedScenario{sc: &again, res: pls[0].res}
-			rej2, err := validate(c, "WsTrace.cfg", nil, []*tracedScenario{t2}, vlib.Work("C11", "tv-confirm", r.t.sc.ID), false)
+			rej2, _, err := validate(c, "WsTraceDev.cfg", nil, []*tracedScenario{t2}, vlib.Work("C11", "tv-confirm", r.t.sc.ID), false)
 			if err != nil {
 				vlib.Infra("trace validation (confirmation): %v", err)
 			}
@@ -1025,13 +1126,12 @@ func judge(c *vlib.Check, bin string, scs []*Scenario, results []*played) {
 			}
 			key2, detail2 := classify(c, rej2[0])
 			key, detail = key2, detail2+"\n(confirmed by a second run of the scenario with longer waits)"
-			key = strings.TrimPrefix(key, "absent:")
 		}
 		key = strings.TrimPrefix(key, "absent:")
 		devCount[key]++
 		c.Violate(key, detail, r.t.sc)
 	}
-	c.Set("rejected_traces_by_key", devCount)
+	c.Set("findings_by_key", devCount)
 	// replay divergences of sessions whose trace the property accepts: the implementation-level
 	// model predicted an observation that did not come within the (confirmed) wait
 	drift := 0
@@ -1082,36 +1182,23 @@ func divergeKind(d string) string {
 	return "other"
 }
 
-// classify: which named deviation (if any) explains the rejection; otherwise a key from the
+// classify a trace that Ws rejects even with the deviations of the open findings admitted: if the
+// REPAIRED deviation (AllowSilentInit, /repo 930d13f) explains it, name it; otherwise a key from the
 // rejected event.  Keys starting with "absent:" rest on the absence of an event.
 func classify(c *vlib.Check, r rejection) (string, string) {
 	t := r.t
 	base := describe(t, r.lineNo) + fmt.Sprintf("\nWs rejects event %d: %s", r.lineNo, evStr(r.line))
-	try := func(flags map[string]string) bool {
-		rej, err := validate(c, "WsTraceDev.cfg", cfgEdit(flags), []*tracedScenario{t}, vlib.Work("C11", "tv-dev", t.sc.ID), false)
+	if len(t.res.Events) > 1 && t.res.Events[1].E == "CSend" && t.res.Events[1].M == "initbad" {
+		rej, _, err := validate(c, "WsTraceDev.cfg", cfgEdit(map[string]string{"AllowSilentInit": "TRUE"}), []*tracedScenario{t}, vlib.Work("C11", "tv-dev", t.sc.ID), false)
 		if err != nil {
 			vlib.Infra("trace validation (deviation classification): %v", err)
 		}
-		return len(rej) == 0
-	}
-	off := map[string]string{"AllowDupStart": "FALSE", "AllowSilentInit": "FALSE", "AllowDoubleError": "FALSE"}
-	only := func(k string) map[string]string { m := merge(off); m[k] = "TRUE"; return m }
-	switch {
-	case try(only("AllowDupStart")):
-		if r.line.E == "Stall" {
-			return "absent:dup-start:stop-does-not-cancel-first-operation", base + "\nstop(id) was sent while two operations of the id were executing; the first one never saw its context cancelled (accepted only with AllowDupStart)"
+		if len(rej) == 0 {
+			return "absent:init-bad-payload:no-close-no-closefunc", base + "\nconnection_init with a non-object payload: no close frame, socket left open, CloseFunc never called (the behaviour repaired by /repo 930d13f is back; accepted only with AllowSilentInit)"
 		}
-		if finalHas(t.res.Events, "source-not-cancelled") {
-			return "absent:dup-start:operation-outlives-connection", base + "\nafter the connection ended an operation started under a duplicate id is still running, its context never cancelled (" + finalWhy(t.res.Events) + ")"
-		}
-		return "dup-start:second-operation-of-running-id", base + "\na start with the id of an operation that is still executing was accepted: two operations run under one id (accepted only with AllowDupStart)"
-	case try(only("AllowSilentInit")):
-		return "absent:init-bad-payload:no-close-no-closefunc", base + "\nconnection_init with a non-object payload: no close frame, socket left open, CloseFunc never called (accepted only with AllowSilentInit)"
-	case try(only("AllowDoubleError")):
-		return "double-error-frame:subscription-error-then-panic", base + "\ntwo error frames for one operation (accepted only with AllowDoubleError)"
 	}
 	key := "trace:" + r.line.E
-	if r.line.M != "" && r.line.E != "Panic" {
+	if r.line.M != "" && r.line.E != "Panic" && r.line.E != "Garbled" {
 		key += ":" + r.line.M
 	}
 	switch r.line.E {
@@ -1124,10 +1211,6 @@ func classify(c *vlib.Check, r rejection) (string, string) {
 		}
 	case "Stall":
 		key = "absent:" + r.line.M
-		if t.sc.Mode == "hammer" && r.line.M == "stop-cancel" {
-			key = "absent:restart-race:stop-does-not-cancel-restarted-operation"
-			base += "\nthe id was restarted right after its completion was received; the finished operation's deferred delete(active, id) removed the NEW operation's registration, so stop(id) found nothing to cancel"
-		}
 	}
 	return key, base
 }
